@@ -168,6 +168,14 @@ def run(O, P, mod, pid):
             if ctx.has_model and ctx.m.get("model") == "ok" and "ast_equal" in ctx.m:
                 full["compared"] += 1
                 full["equal"] += 1 if ctx.m["ast_equal"] else 0
+            if getattr(mod, "WHOLE_TREE", False) and ctx.has_model and ctx.m.get("model") == "ok" and ctx.m.get("ast_equal_nospan") is False:
+                # for the properties that are about the whole output (C01, C02) the projection is the output tree itself (positions aside)
+                proj_breaks += 1
+                if proj_breaks <= 3:
+                    O.break_("correspondence pi_%s model vs implementation: the implementation's output tree differs from the model's (positions aside)" % pid,
+                             {"case": C.one_call_case(case, ki), "correspondence": "pi_" + pid + " (whole output tree)",
+                              "diff_path": ctx.m.get("diff_path"), "model_subtree": ctx.m.get("diff_model"), "implementation_subtree": ctx.m.get("diff_impl")})
+                continue
             if True:
                 pok, why = mod.projection(ctx) if hasattr(mod, "projection") else verdict_projection(mod, ctx, known)
                 if not pok:
